@@ -26,8 +26,10 @@ def int_values(rng, k):
         lo, hi = 0, (1 << b) - 1
         pool = [0, 1, hi, hi - 1, 7, 8, 9, 10, 15, 16, 63, 64, 99, 100, 255, 256]
     r = rng.random()
-    if r < 0.55:
+    if r < 0.35:
         v = rng.choice(pool)
+    elif r < 0.6:
+        v = pow2_value(rng, k)
     elif r < 0.7:
         base = rng.choice([8, 10, 16])
         e = rng.randrange(0, 23)
@@ -38,6 +40,32 @@ def int_values(rng, k):
         v = rng.randrange(lo, hi + 1)
     v = max(lo, min(hi, v))
     return v
+
+
+def pow2_value(rng, k):
+    """2^a, 2^a +- 1, 2^a + 2^b (+-1) within the range of type k (negated half of the time for signed types)"""
+    b = BITS[k]
+    top = b - 1 if SIGNED[k] else b
+    a = rng.randrange(1, top + 1)
+    v = 1 << a
+    if rng.random() < 0.35:
+        v += 1 << rng.randrange(0, a)
+    v += rng.choice([-1, 0, 0, 1])
+    if SIGNED[k]:
+        if rng.random() < 0.5:
+            v = -v
+        v = max(-(1 << (b - 1)), min((1 << (b - 1)) - 1, v))
+    else:
+        v = max(0, min((1 << b) - 1, v))
+    return v
+
+
+def ndigits(v, base):
+    v = abs(v)
+    n = 1
+    while v >= base:
+        v //= base; n += 1
+    return n
 
 
 def enc_arg(a):
@@ -112,7 +140,7 @@ class C15(flow.Spec):
     test = 'TestVerifC15$'
     rule = ('well-formed formats (literal text, %%, %[width]{d,x,o,s,t}; widths none/0/1/19..23/31..34/64/100/1000/random<=3000, '
             'a few 10^6; leading zeros) with matching / mistyped / missing / surplus arguments; integer values 0, +-1, min, max, '
-            'min+1, max-1, base^k-1/base^k/base^k+1 and random for each of the ten integer types; strings/byte slices of length '
+            'min+1, max-1, base^k-1/base^k/base^k+1, 2^k / 2^k+-1 / 2^a+2^b and random for each of the ten integer types, plus a sweep over every (type, base, 2^k and 2^k+-1 for every k, both signs) with widths around the digit count; strings/byte slices of length '
             '0..300 (some 2047..20000); plus arbitrary-byte formats (unknown verbs, trailing %, %<digits>%, 15-25 digit widths that '
             'wrap the 64-bit int). non-trivial = at least one verb consumed an argument; distinct = distinct (format,args)')
     assumptions = ['"no heap allocation" is measured on the real code (testing.AllocsPerRun == 0 for every generated case with a '
@@ -178,6 +206,42 @@ class C15(flow.Spec):
         args = [rand_arg(rng) for _ in range(rng.randrange(0, 6))]
         return fmt, args
 
+    def sweep_cases(self, rng, tier):
+        """Every (integer type, base, 2^k and 2^k +- 1 for every k of the type, both signs) conversion, with a
+        width drawn around the digit count; plus sums 2^a + 2^b. 16 conversions per case."""
+        convs = []
+        for k in range(10):
+            b = BITS[k]
+            top = b - 1 if SIGNED[k] else b
+            vals = set()
+            for a in range(1, top + 1):
+                for d in (-1, 0, 1):
+                    vals.add((1 << a) + d)
+            nsum = {'quick': 40, 'thorough': 400, 'search': 120}[tier]
+            for _ in range(nsum):
+                a = rng.randrange(2, top + 1)
+                vals.add((1 << a) + (1 << rng.randrange(0, a)) + rng.choice([-1, 0, 0, 0, 1]))
+            lo, hi = (-(1 << (b - 1)), (1 << (b - 1)) - 1) if SIGNED[k] else (0, (1 << b) - 1)
+            for v in sorted(vals):
+                for sv in ((v, -v) if SIGNED[k] else (v,)):
+                    sv = max(lo, min(hi, sv))
+                    for verb, base in ((0x64, 10), (0x78, 16), (0x6f, 8)):
+                        convs.append((k, sv, verb, base))
+        rng.shuffle(convs)
+        out = []
+        for i in range(0, len(convs), 16):
+            fmt, args = [], []
+            for (k, v, verb, base) in convs[i:i + 16]:
+                nd = ndigits(v, base) + (1 if v < 0 else 0)
+                w = rng.choice([None, None, 0, 1, max(nd - 2, 0), max(nd - 1, 0), nd, nd + 1, nd + 2, 31, 32, rng.randrange(0, 36)])
+                fmt.append(0x25)
+                if w is not None:
+                    fmt += list(str(w).encode())
+                fmt += [verb, 0x7c]
+                args.append((k, v))
+            out.append((self.encode(fmt, args), 'pow2-sweep'))
+        return out
+
     def gen_cases(self, rng, tier):
         n = {'quick': 1500, 'thorough': 40000, 'search': 4000}[tier]
         nbig = {'quick': 3, 'thorough': 12, 'search': 2}[tier]
@@ -193,6 +257,7 @@ class C15(flow.Spec):
             if simulate_limits(fmt, args) > 200000:
                 continue
             out.append((self.encode(fmt, args), note))
+        out += self.sweep_cases(rng, tier)
         k = 0
         while k < nbig:
             fmt, args = self.wf_case(rng, big=True)
@@ -255,10 +320,39 @@ class C15(flow.Spec):
         fmt, args = self.decode(nums)
         return bool(fmt) and bool(args) and obs[:1] == ['0'] and 0x25 in fmt
 
+    @staticmethod
+    def conversions(fmt):
+        """[(start, end)] of %[digits]verb conversions when the format is well-formed, else None"""
+        out, i = [], 0
+        while i < len(fmt):
+            if fmt[i] != 0x25:
+                i += 1; continue
+            j = i + 1
+            if j < len(fmt) and fmt[j] == 0x25:
+                i = j + 1; continue
+            while j < len(fmt) and 0x30 <= fmt[j] <= 0x39:
+                j += 1
+            if j >= len(fmt) or fmt[j] not in b'dxost':
+                return None
+            out.append((i, j + 1)); i = j + 1
+        return out
+
     def shrink_candidates(self, nums):
         fmt, args = self.decode(nums)
         if fmt is None:
             return
+        convs = self.conversions(fmt)
+        if convs and len(convs) == len(args):
+            # keep one conversion with its argument; drop one conversion with its argument
+            if len(convs) > 1:
+                for j, (a, b) in enumerate(convs):
+                    yield self.encode(fmt[a:b], [args[j]])
+                for j, (a, b) in enumerate(convs):
+                    yield self.encode(fmt[:a] + fmt[b:], args[:j] + args[j + 1:])
+            # drop the width of a conversion
+            for j, (a, b) in enumerate(convs):
+                if b - a > 2:
+                    yield self.encode(fmt[:a + 1] + fmt[b - 1:], args)
         for j in range(len(args)):
             yield self.encode(fmt, args[:j] + args[j + 1:])
         for j in range(len(fmt)):
